@@ -44,6 +44,11 @@ class JSInf:
     def __init__(self, sign):
         self.sign = sign
 
+class OptNum:
+    """an optional numeric parameter: undefined or a number"""
+    def __init__(self, val, undef):
+        self.val, self.undef = val, undef
+
 class JSUndef:
     pass
 UNDEF = JSUndef()
@@ -219,6 +224,12 @@ class JSExec(GoExec, SpecMixin, CallsMixin):
             st.guards.pop()
         return z3.And(a, b) if e['operator'] == '&&' else z3.Or(a, b)
 
+    def unopt(self, st, v, line):
+        if isinstance(v, OptNum):
+            self.oblige(st, 'defined@%s' % line, z3.Not(v.undef), src=line)
+            return v.val
+        return v
+
     def truthy(self, st, v):
         if isinstance(v, z3.ExprRef) and z3.is_bool(v): return v
         if isinstance(v, z3.ExprRef): return v != self.num(0)
@@ -274,6 +285,16 @@ class JSExec(GoExec, SpecMixin, CallsMixin):
         return t
 
     def binop_js(self, st, op, a, b, line):
+        if op in ('===', '!==') and isinstance(a, OptNum) and isinstance(b, JSUndef):
+            return a.undef if op == '===' else z3.Not(a.undef)
+        if op in ('===', '!==', '==', '!=') and isinstance(a, JSObj) and isinstance(b, JSFunc) and b.name.endswith('.nil') and '$nil' in a.fields:
+            return a.fields['$nil'] if op in ('===', '==') else z3.Not(a.fields['$nil'])
+        if op in ('===', '!==', '==', '!=') and isinstance(a, JSFunc) and isinstance(b, JSFunc) and (a.name.endswith('.nativeArray') or b.name.endswith('.nativeArray')):
+            na = a if a.name.endswith('.nativeArray') else b
+            fl = getattr(na, 'flag', None)
+            if fl is None: raise Unsupported('nativeArray comparison')
+            return fl if op in ('===', '==') else z3.Not(fl)
+        a, b = self.unopt(st, a, line), self.unopt(st, b, line)
         if isinstance(a, (JSQuot, JSInf)) or isinstance(b, (JSQuot, JSInf)):
             return self.quot_op(st, op, a, b, line)
         if op in ('===', '!==', '==', '!='):
@@ -535,6 +556,11 @@ class JSExec(GoExec, SpecMixin, CallsMixin):
                 return JSFunc('ctor:' + (obj.ctor or '?'))
             if name in obj.fields:
                 return obj.fields[name]
+            if name == 'nativeArray' and '$isArray' in obj.fields:
+                f = JSFunc('typ.nativeArray'); f.flag = obj.fields['$isArray']
+                return f
+            if name == 'zero' and obj.ctor == 'Type':
+                return JSFunc('elem.zero')
             raise Unsupported('object has no modelled field %s' % name)
         if isinstance(obj, JSFunc):
             return JSFunc(obj.name + '.' + name)
@@ -550,6 +576,17 @@ class JSExec(GoExec, SpecMixin, CallsMixin):
             return self.construct(st, kind, args, self.line(e))
         if isinstance(callee, JSFunc) and callee.name in ('$Int64', '$Uint64'):
             return self.construct(st, callee.name[1:], args, self.line(e))
+        if isinstance(callee, JSObj) and callee.ctor == 'SliceType':
+            return self.construct(st, 'Slice', args, self.line(e))
+        if isinstance(callee, JSFunc) and callee.name == 'typ.nativeArray':
+            n = self.unopt(st, args[0], self.line(e))
+            ident = fresh('arr.id'); st.assume(ident > 0)
+            for r in st.meta.get('arrids', []): st.assume(ident != r)
+            st.meta['arrids'] = st.meta.get('arrids', []) + [ident]
+            h = self.heap(st)
+            st.ghost[('jsheap',)] = z3.Store(h, ident, z3.K(I, z3.IntVal(0)))
+            a = JSArr(ident, n, 'num'); a.fresh = True
+            return a
         if isinstance(callee, JSFunc) and callee.name == 'Uint8Array':
             n = args[0]
             ident = fresh('arr.id'); st.assume(ident > 0)
@@ -586,6 +623,13 @@ class JSExec(GoExec, SpecMixin, CallsMixin):
                 lv = self.touint32(low)
             self.assumed.add('64-bit constructor contract (types.js $kindInt64/$kindUint64 regions, verified separately under C06)')
             return JSObj({'$high': hv, '$low': lv}, ctor=kind, ref=fresh('obj'))
+        if kind == 'Slice':
+            # types.js, $newType case $kindSlice: offset 0, length and capacity of the array (the array is assumed to be of the
+            # type's native array class already, which is what every caller in the prelude passes)
+            arr = args[0]
+            if not isinstance(arr, JSArr): raise Unsupported('slice constructor on a non-array')
+            self.assumed.add('slice constructor region ($kindSlice): $offset = 0, $length = $capacity = array.length')
+            return JSObj({'$array': arr, '$offset': self.num(0), '$length': arr.length, '$capacity': arr.length, '$nil': z3.BoolVal(False)}, ctor='Slice', ref=fresh('obj'))
         raise Unsupported('constructor of %s' % kind)
 
     def js_CallExpression(self, st, e):
@@ -600,6 +644,8 @@ class JSExec(GoExec, SpecMixin, CallsMixin):
                 vals = [self.ev(st, a) for a in args]
                 return self.from_char_codes(st, vals)
             obj = self.ev(st, c['object'])
+            if isinstance(obj, JSObj) and obj.ctor == 'Type' and mname == 'zero':
+                return fresh('zero')           # the element type's zero value: opaque
             if isinstance(obj, StrV):
                 if mname == 'charCodeAt':
                     i = self.ev(st, args[0])
@@ -875,6 +921,9 @@ class JSExec(GoExec, SpecMixin, CallsMixin):
         b = {}
         if self.mode == 'bv':
             b['$bvw'] = 64; b['$signed'] = True
+        src_env = st.entry.env if st.entry is not None else st.env
+        for k, v in src_env.items():
+            if isinstance(v, OptNum): b[k + '$undef'] = v.undef
         for k, v in st.env.items():
             b[k] = self.to_spec(st, v)
         return b
@@ -882,6 +931,7 @@ class JSExec(GoExec, SpecMixin, CallsMixin):
     def to_spec(self, st, v, depth=0):
         if depth > 4: return None
         if isinstance(v, MaybeNaN): return v.val
+        if isinstance(v, OptNum): return v.val
         if isinstance(v, JSArr):
             s = SliceV([z3.Select(self.heap(st), v.ident)], z3.IntVal(0), v.length, v.length, None, z3.BoolVal(False))
             s.ident = v.ident
@@ -931,6 +981,17 @@ class JSExec(GoExec, SpecMixin, CallsMixin):
             if self.mode != 'bv':
                 self.know(h, -TWO31 if ty == 'i64' else 0, TWO31 - 1 if ty == 'i64' else TWO32 - 1); self.know(l, 0, TWO32 - 1)
             return JSObj({'$high': h, '$low': l}, ctor='Int64' if ty == 'i64' else 'Uint64', ref=fresh('obj'))
+        if ty.startswith('opt '):
+            v = self.make_param(st, name, ty[4:])
+            return OptNum(v, fresh(name + '.undef', B))
+        if ty == 'slice':
+            arr = self.make_param(st, name + '.$array', 'arr')
+            off, ln, cap = [self.make_param(st, name + f, 'nat') for f in ('.$offset', '.$length', '.$capacity')]
+            nil = fresh(name + '.nil', B)
+            st.pc += [ln <= cap, off + cap <= arr.length, z3.Implies(nil, z3.And(ln == 0, cap == 0))] if self.mode != 'bv' else []
+            return JSObj({'$array': arr, '$offset': off, '$length': ln, '$capacity': cap, '$nil': nil}, ctor='Slice', ref=fresh('obj'))
+        if ty == 'slicetype':
+            return JSObj({'$isArray': fresh(name + '.isArray', B), 'elem': JSObj({}, ctor='Type', ref=fresh('obj'))}, ctor='SliceType', ref=fresh('obj'))
         if ty in ('arr', 'u8arr'):
             ident = fresh(name + '.id'); n = fresh(name + '.length')
             st.pc += [ident > 0, n >= 0, n <= MAXLEN]
@@ -1024,11 +1085,16 @@ class JSExec(GoExec, SpecMixin, CallsMixin):
             for part in cl.text.split(','):
                 n, t = part.split(':')
                 ptypes[n.strip()] = t.strip()
+        defaults = []
         for p in fn['params']:
-            pn = p['name']
+            if p['type'] == 'AssignmentPattern':
+                pn = p['left']['name']; defaults.append((pn, p['right']))
+            else:
+                pn = p['name']
             if pn not in ptypes:
                 raise Unsupported('contract gives no type for parameter %s' % pn)
             st.env[pn] = self.make_param(st, pn, ptypes[pn])
+        fr.defaults = defaults
         for cl in c.get('ghost'):
             self.ghost_assign(st, SpecEnv(st, self.spec_binds(st), None), cl)
         entry = st.clone(); st.entry = entry; entry.entry = entry
@@ -1042,6 +1108,13 @@ class JSExec(GoExec, SpecMixin, CallsMixin):
             st.pc.append(self.sev_bool(env, cl.expr))
         body = fn['body']
         def run(state):
+            for (pn, dexpr) in fr.defaults:          # default parameter values: used when the argument is undefined
+                v = state.env[pn]
+                if isinstance(v, OptNum):
+                    if self.fork(state, v.undef):
+                        state.env[pn] = self.ev(state, dexpr)
+                    else:
+                        state.env[pn] = v.val
             if body['type'] == 'BlockStatement':
                 self.block(state, body['body'])
                 return None
@@ -1106,7 +1179,8 @@ class JSExec(GoExec, SpecMixin, CallsMixin):
         for c in self.jsvariants[name]:
             fn, f = self.find_func(c.key.split()[1] if len(c.key.split()) >= 2 else name)
             pt = self.contract_ptypes(c)
-            if fn and len(fn['params']) >= len(argv) and all(self.arg_matches(v, pt.get(p['name'], '?')) for p, v in zip(fn['params'], argv)):
+            pname = lambda p: p['left']['name'] if p['type'] == 'AssignmentPattern' else p['name']
+            if fn and len(fn['params']) >= len(argv) and all(self.arg_matches(v, pt.get(pname(p), '?')) for p, v in zip(fn['params'], argv)):
                 cm = c.get('mode')[0].text.strip() if c.get('mode') else 'jn'
                 if cm == self.mode:
                     chosen = (c, fn, pt); break
@@ -1117,14 +1191,22 @@ class JSExec(GoExec, SpecMixin, CallsMixin):
         binds = {}
         if self.mode == 'bv':
             binds['$bvw'] = 64; binds['$signed'] = True
+        pname = lambda p: p['left']['name'] if p['type'] == 'AssignmentPattern' else p['name']
+        for i, p in enumerate(fn['params']):
+            ty = pt.get(pname(p), '')
+            if ty.startswith('opt '):
+                binds[pname(p) + '$undef'] = z3.BoolVal(i >= len(argv))
+                if i >= len(argv):
+                    binds[pname(p)] = self.num(0)
         for p, v in zip(fn['params'], argv):
-            binds[p['name']] = self.to_spec(st, v)
+            binds[pname(p)] = self.to_spec(st, v)
             # the callee's parameter type is a precondition on the argument
-            ty = pt.get(p['name'])
+            ty = pt.get(pname(p), '')
+            if ty.startswith('opt '): ty = ty[4:]
             rng = {'int32': (-TWO31, TWO31 - 1), 'uint32': (0, TWO32 - 1), 'byte': (0, 255), 'nat': (0, TWO53), 'num': (-TWO53, TWO53), 'int': (-TWO53, TWO53)}.get(ty)
             if rng and isinstance(v, z3.ExprRef):
                 lo, hi = (self.num(rng[0]), self.num(rng[1]))
-                self.oblige(st, 'pre-type@call %s(%s)@%s' % (name, p['name'], line), z3.And(v >= lo, v <= hi), src=line)
+                self.oblige(st, 'pre-type@call %s(%s)@%s' % (name, pname(p), line), z3.And(v >= lo, v <= hi), src=line)
         old = st.clone()
         envp = SpecEnv(st, binds, old)
         for cl in c.get('requires'):
@@ -1134,7 +1216,7 @@ class JSExec(GoExec, SpecMixin, CallsMixin):
             raise PanicEx(c.get('throws_msg')[0].text.strip() if c.get('throws_msg') else 'callee %s throws' % name)
         rt = c.get('returns')[0].text.strip() if c.get('returns') else None
         if rt is None:
-            first = pt.get(fn['params'][0]['name']) if fn['params'] else None
+            first = pt.get(pname(fn['params'][0])) if fn['params'] else None
             rt = first if first in ('i64', 'u64') else 'num'
         res = self.make_param(st, 'r.' + name.strip('$'), rt)
         rb = dict(binds); rb['result'] = self.to_spec(st, res)
